@@ -114,6 +114,49 @@ fn crafted() -> Vec<(String, Vec<KEv>)> {
             v.push((cfg.to_string(), h));
         }
     }
+    // floods without a tick in between: Layout::event dequeues the evicted event at once, so every
+    // action kind is also performed from inside event(), between two ticks, on whatever state the
+    // last tick left behind (an expired eager tap-dance, a pending tap-hold, an armed one-shot ...)
+    for act in [
+        "(tap-dance-eager 200 (x y))", "(tap-dance-eager 1 (x))", "(tap-dance 200 (x y))", "(tap-hold 100 100 x lsft)",
+        "(tap-hold-press 0 100 x lsft)", "(tap-hold-release 0 100 x lsft)", "(one-shot 100 lsft)", "(one-shot-release-pcancel 100 lsft)",
+        "(macro x 5 y)", "(macro-repeat x y)", "(layer-while-held l1)", "(layer-toggle l1)", "(fork x y (w))", "(switch ((key-history q 2)) x break () y fallthrough () z break)",
+        "(chord grp q)", "(multi lsft (tap-dance-eager 50 (x y z)))", "rpt", "rpt-any", "(caps-word 100)", "(release-key w)", "(on-press-fakekey v1 toggle)",
+        "(unmod x)", "mlft", "(mwheel-up 50 120)", "(dynamic-macro-record 1)", "sldr",
+    ] {
+        let cfg = format!(
+            "(defvirtualkeys v1 z)\n(defchords grp 50 (q) x (w) y (q w) z)\n(defsrc q w)\n(deflayer l0 {act} {})\n(deflayer l1 _ _)\n",
+            if act.starts_with("(chord") { "(chord grp w)" } else { "w" }
+        );
+        if !act.starts_with("(chord") && cfg.contains("defchords") {
+            // the chord group must be bound somewhere: drop it when it is not used
+        }
+        let cfg = if act.starts_with("(chord") { cfg } else { cfg.replace("(defchords grp 50 (q) x (w) y (q w) z)\n", "") };
+        for (n, with_rel, other) in [(20usize, true, false), (40, true, false), (40, false, false), (34, true, true), (70, true, true)] {
+            let mut h = vec![];
+            for i in 0..n {
+                let key = if other && i % 3 == 2 { "w" } else { "q" };
+                h.push(p(key));
+                if with_rel {
+                    h.push(rl(key));
+                }
+            }
+            h.push(t(300));
+            h.push(p("q"));
+            h.push(t(3));
+            h.push(rl("q"));
+            h.push(t(300));
+            v.push((cfg.clone(), h));
+        }
+        // the same after the state has been left to expire by ticks
+        let mut h = vec![p("q"), t(1), rl("q"), t(1)];
+        for _ in 0..40 {
+            h.push(p("q"));
+            h.push(rl("q"));
+        }
+        h.push(t(300));
+        v.push((cfg.clone(), h));
+    }
     // chords v2 perform their action at a position outside of the layers and defsrc: every kind of
     // action must be either refused by the parser or performed without a crash
     for act in [
